@@ -41,6 +41,7 @@ type zzSeq struct {
 	hadOverflow bool
 	maximum     uint64
 	lastW       uint32
+	narrow      bool // clock advances are bounded by 2^40 (stated in the harness that sets it)
 	nOverflow, wOverflow     uint64 // Overflow events and their weights
 	nExpired, wExpired       uint64 // Expiration events (any path) and their weights
 	prevStats                [6]uint64
@@ -679,5 +680,8 @@ func zzNewSeqD(cfg zzCfg, tag string, concrete bool) *zzSeq {
 func (s *zzSeq) advance() {
 	dt := vI64("dt")
 	vAssume(dt >= 0 && dt < zzMaxI64-s.env.clk.now)
+	if s.narrow {
+		vAssume(dt < int64(1)<<40)
+	}
 	s.env.clk.now += dt
 }
